@@ -39,11 +39,18 @@ const double TOL_SYM = 1e-5;   // out[bin(A,B)] vs out[bin(B,A)]
 const double TOL_LIN = 1e-4;   // linearity
 const double TOL_CACHE = 1e-5; // cache on vs off
 
+//! exclusions of known findings (work/notes/C16_findings.md) are on by default;
+//! VERIF_NO_EXCLUDE=1 (or "all") switches all of them off, VERIF_NO_EXCLUDE=F1,F4 only the named ones
 bool
-no_exclude()
+no_exclude(const char* id)
 {
-  static const bool v = std::getenv("VERIF_NO_EXCLUDE") != nullptr;
-  return v;
+  static const char* e = std::getenv("VERIF_NO_EXCLUDE");
+  if (!e)
+    return false;
+  const std::string v(e);
+  if (v == "1" || v == "all" || v.empty())
+    return true;
+  return v.find(id) != std::string::npos;
 }
 
 enum Op
@@ -306,7 +313,7 @@ set_up_obj(SingleScatterSimulation& s)
         stir_verif::asserts_on = false;
     }
     ~Guard() { stir_verif::asserts_on = old; }
-  } guard(one_ring && !no_exclude());
+  } guard(one_ring && !no_exclude("F2"));
   if (one_ring)
     stats().count("set_up for a single-ring scanner (assertions off)");
   return s.set_up();
@@ -462,7 +469,7 @@ check(const json& c)
     if (!M.sp_set)
       {
         const bool one_ring = H.get_template_proj_data_info_sptr()->get_scanner_ptr()->get_num_rings() == 1;
-        if (one_ring && !st.explicit_zoom && !no_exclude())
+        if (one_ring && !st.explicit_zoom && !no_exclude("F3"))
           {
             // KNOWN FINDING C16-F3: with the default (automatic) zoom settings a single-ring template gives a scatter-point
             // image of ONE plane, zoom_z = (1-1)/(old_z-1) = 0, voxel size z = inf and NaN output.  Excluded.
@@ -471,9 +478,9 @@ check(const json& c)
             M.sp_set = true;
             H.set_density_image_for_scatter_points_sptr(make_sp(P, M.sp));
           }
-        else if (H_downsampled_in_set_up && !st.explicit_zoom && !no_exclude())
+        else if (H_downsampled_in_set_up && !st.explicit_zoom && !no_exclude("F4"))
           {
-            // KNOWN FINDING C16-F1 (work/notes/C16_findings.md): set_up's automatic down-sampling overwrites the
+            // KNOWN FINDING C16-F4 (work/notes/C16_findings.md): set_up's automatic down-sampling overwrites the
             // "automatic" (-1) zoom settings with derived numbers, so a second automatic down-sampling on the same object
             // re-uses factors derived from the old attenuation image/template.  Excluded: give an explicit scatter-point image.
             stats().count("excluded: second automatic scatter-point down-sampling");
@@ -488,7 +495,7 @@ check(const json& c)
               stats().cls("second automatic down-sampling on one object");
           }
       }
-    if (eff_exam >= 0 && !no_exclude()
+    if (eff_exam >= 0 && !no_exclude("F1")
         && (P.exams[eff_exam]->get_low_energy_thres() != P.exams[M.exam]->get_low_energy_thres()
             || P.exams[eff_exam]->get_high_energy_thres() != P.exams[M.exam]->get_high_energy_thres()))
       {
